@@ -10,7 +10,7 @@ import (
 	"fmt"
 	"os"
 
-	_ "verif/mc/internal/checks"
+	"verif/mc/internal/checks"
 	"verif/mc/internal/drv"
 	"verif/mc/internal/run"
 )
@@ -38,6 +38,8 @@ func main() {
 			os.Exit(2)
 		}
 		os.Exit(run.ReplayMain(os.Args[2]))
+	case "racepass":
+		os.Exit(checks.RacePassMain(os.Args[2:]))
 	case "list":
 		for _, id := range run.IDs() {
 			fmt.Println(id)
